@@ -19,11 +19,17 @@ LEVEL = "model_checking"
 def run(ctx):
     ctx.build(["c17"])
     paths, rs = xcommon.explore(ctx, "c17", "X_C17", 140, 4900, per_file=28)
+    # prologue/epilogue templates assembled by llvm-mc (corpus/c17) and lifted by the real translators
+    lifted = ctx.record("c17", ["--mode", "lifted", "--corpus", core.ROOT + "/corpus/c17"], "lifted.json")
+    r = ctx.tlc_explore("X_C17", lifted)
+    for rj in r.rejects:
+        ctx.reject(rj)
+    paths = paths + [lifted]
     by_arch, claims, unknown = {}, 0, 0
     for p in paths:
         with open(p) as f:
             for q in json.load(f)["progs"]:
-                k = q["arch"] + ":" + q["outcome"]["k"]
+                k = q["arch"] + (":lifted:" if "template" in q else ":") + q["outcome"]["k"]
                 by_arch[k] = by_arch.get(k, 0) + 1
                 claims += len(q["claims"])
                 unknown += q.get("unknown_locations", 0)
@@ -32,7 +38,7 @@ def run(ctx):
     ctx.extra["locations_reported_unknown"] = unknown
     ctx.assumptions += ["ILSem is the semantics of the IL (bound to the executor by C07)",
                         "calls (indirect branches, intrinsics) preserve the stack pointer, as the analysis assumes",
-                        "functions are synthetic IL over architecture.stack_pointer(); lifted prologues are not yet included",
+                        "functions are synthetic IL over architecture.stack_pointer(), plus 11 lifted prologue/epilogue templates",
                         "control scalars enumerated, sp0 in {window, 0, 2^w-8}; loops bounded by 40 steps"]
 
 
